@@ -1,7 +1,7 @@
 GROUPS = [
  dict(name="dict_find", enforce="CODictFind", harness="dict_find.c", tus=["core/co_dict.c"],
       contracts=["dict.h"], defs=["VW_DICT_FIND_GHOST"], replace=["vw_sorted_inst"],
-      loops={"CODictFind.0": "VWL_dict_find"}, reach=["post", "found", "notfound"],
+      loops={"CODictFind.0": "VWL_dict_find"}, reach=["post", "found", "notfound"], nondet_static=True,
       props={"C06": "quick", "C01": "quick", "C04": "thorough"}, timeout=300, cost=20),
 ]
 
@@ -44,3 +44,52 @@ def _str_groups():
         gs.append(g)
     return gs
 GROUPS += _str_groups()
+GROUPS += [
+ dict(name="dict_init", enforce="CODictInit", harness="dict_init.c", tus=["core/co_dict.c"],
+      contracts=["dict.h"], loops={"CODictInit.0": "VWL_dict_init"}, reach=["post", "some", "full"],
+      props={"C06": "quick", "C01": "quick"}, timeout=300, cost=10),
+ dict(name="dict_objinit", enforce="CODictObjInit", harness="dict_objinit.c", tus=["core/co_dict.c"],
+      contracts=["dict.h"], replace=["COObjInit", "vw_sorted_inst"], loops={"CODictObjInit.0": "VWL_dict_objinit"}, nondet_static=True,
+      reach=["post", "some"], props={"C06": "quick", "C01": "quick", "C20": "quick"}, timeout=300, cost=10),
+]
+
+def _typed_groups():
+    gs = []
+    for w, n in ((1, "byte"), (2, "word"), (4, "long")):
+        gs.append(dict(name="dict_typed_%s" % n, fn="CODictRd%s/CODictWr%s" % (n.capitalize(), n.capitalize()), form="explicit",
+                       harness="dict_typed.c", tus=["core/co_dict.c", "core/co_obj.c", "object/basic/co_integer8.c",
+                                                    "object/basic/co_integer16.c", "object/basic/co_integer32.c"],
+                       defs=["VW_W=%d" % w, "VW_DN=3"], nondet_static=True,
+                       unwind={"CODictFind.0": 3, "vw_dict_init.0": 4, "vw_dict_lookup.0": 4, "COObjTypeUserSDOAbort.0": 3},
+                       reach=["post", "rd_ok", "rd_size", "wr_ok", "wr_nodeid"],
+                       bounded="dictionary layout of <= 3 entries (keys, flags, types, values symbolic); CODictFind exactness for every size is group dict_find",
+                       props={"C06": "quick", "C01": "quick"}, timeout=300, cost=5))
+    return gs
+GROUPS += _typed_groups()
+for _w, _n in ((0, "Rd"), (1, "Wr")):
+    GROUPS.append(dict(name="dict_buf_" + _n.lower(), enforce="CODict%sBuffer" % _n, harness="dict_buf.c",
+        tus=["core/co_dict.c"], defs=["VW_WRITE=%d" % _w], nondet_static=True,
+        replace=["CODictFind", "COObj%sBufStart" % _n], reach=["post", "big", "notfound"],
+        props={"C06": "quick", "C01": "quick"}, timeout=300, cost=5))
+
+def _obj_groups():
+    gs = []
+    fps = {"COObjGetSize": ["size"], "COObjRdValue": ["read"], "COObjWrValue": ["write"],
+           "COObjRdBufStart": ["reset", "read"], "COObjRdBufCont": ["read"], "COObjWrBufStart": ["reset", "write"],
+           "COObjWrBufCont": ["write"], "COObjReset": ["reset"]}
+    kinds = {"COObjGetSize": 0, "COObjRdValue": 1, "COObjWrValue": 1, "COObjReset": 3}
+    for fn, calls in fps.items():
+        fp, repl = [], []
+        if fn.endswith("BufStart"):     # COObjRdBufStart calls COObjReset (own group) then the type function
+            repl.append("COObjReset")
+            fp.append("%s.function_pointer_call.1/%s_contract" % (fn, calls[1]))
+            repl.append(calls[1] + "_contract")
+        else:
+            fp.append("%s.function_pointer_call.1/%s_contract" % (fn, calls[0]))
+            repl.append(calls[0] + "_contract")
+        gs.append(dict(name="obj_" + fn[5:].lower(), enforce=fn, harness="obj_fn.c", tus=["core/co_obj.c"],
+                       defs=["VW_FN=" + fn, "VW_KIND=%d" % kinds.get(fn, 2), "VW_ENFORCE_OBJ"], nondet_static=True,
+                       fp=fp, replace=repl, reach=["post"] + ([] if fn == "COObjGetSize" else ["called"]),
+                       props={"C06": "quick", "C01": "quick"}, timeout=200, cost=3))
+    return gs
+GROUPS += _obj_groups()
